@@ -173,7 +173,7 @@ impl Property for P {
     }
     fn rule(&self) -> String {
         "Swept exhaustively: the 14 small-order encodings (u in {0,1,p-1,p,p+1, two order-8 values} x bit 255) x role {recipient key at sender, encapsulated key at receiver, sender identity key at receiver} x 4 modes x 3 KDFs x {sealing, export-only} x {setup, Kem::encap/decap, single-shot}, against 2 private-key sets. \
-         Generated negatives: random 32-byte strings (with and without bit 255), small-order encodings with one bit flipped or an offset added, p+2..p+18. \
+         Generated negatives: random 32-byte strings (with and without bit 255), small-order encodings with one bit flipped or an offset added, p+2..p+18, and keys related to the session (the expected sender key, the recipient's own key, the sender's ephemeral key presented in each role). \
          Oracle: the harness's own RFC 7748 ladder decides whether any DH in the operation is zero: zero => sender entry points Err(EncapError), receiver ones Err(DecapError), nothing produced; non-zero => setup succeeds (never rejected). \
          Non-trivial: small-order positives and near-miss negatives (everything except plain random strings)."
             .into()
@@ -193,7 +193,25 @@ impl Property for P {
                 if role == Role::SenderIdAtReceiver {
                     sess.mode |= 2;
                 }
-                let (how, u) = negatives(seed, idx, bit);
+                let (mut how, mut u) = negatives(seed, idx, bit);
+                // values related to the session's own keys: the expected sender key, the recipient's
+                // own key, the sender's actual ephemeral key - none is of small order, none may be refused
+                match seed % 23 {
+                    0 | 1 => {
+                        how = "related:equals-sender-identity-key".into();
+                        u = gen::ref_keypair(KemId::X25519, &sess.ikm_s).1;
+                        sess.mode |= 2;
+                    }
+                    2 => {
+                        how = "related:equals-recipient-key".into();
+                        u = gen::ref_keypair(KemId::X25519, &sess.ikm_r).1;
+                    }
+                    3 => {
+                        how = "related:equals-ephemeral-key".into();
+                        u = gen::ref_keypair(KemId::X25519, &sess.ikm_e()).1;
+                    }
+                    _ => {}
+                }
                 Case { sess, role, api, how, u: Bytes(u) }
             })
             .boxed()
@@ -232,6 +250,22 @@ impl Property for P {
                 for mode in 0..4u8 {
                     let s = Suite { kem: KemId::X25519, kdf: KdfId::Sha256, aead: AeadId::ChaCha };
                     near.push(Case { sess: gen::cell_session(s, if role == Role::SenderIdAtReceiver { mode | 2 } else { mode }, 12), role, api: Api::Setup, how: format!("near-miss:{}", name), u: Bytes(u.to_vec()) });
+                }
+            }
+        }
+        for role in [Role::RecipientAtSender, Role::EncAtReceiver, Role::SenderIdAtReceiver] {
+            for mode in [2u8, 3u8, 0u8] {
+                for (name, which) in [("related:equals-sender-identity-key", 0u8), ("related:equals-recipient-key", 1), ("related:equals-ephemeral-key", 2)] {
+                    let s = Suite { kem: KemId::X25519, kdf: KdfId::Sha256, aead: AeadId::ChaCha };
+                    let sess = gen::cell_session(s, if role == Role::SenderIdAtReceiver { mode | 2 } else { mode }, 14);
+                    let u = match which {
+                        0 => gen::ref_keypair(KemId::X25519, &sess.ikm_s).1,
+                        1 => gen::ref_keypair(KemId::X25519, &sess.ikm_r).1,
+                        _ => gen::ref_keypair(KemId::X25519, &sess.ikm_e()).1,
+                    };
+                    for api in [Api::Setup, Api::Kem] {
+                        near.push(Case { sess: sess.clone(), role, api, how: name.into(), u: Bytes(u.clone()) });
+                    }
                 }
             }
         }
